@@ -124,6 +124,7 @@ type TypeDecl struct {
 	Immutable     bool
 	Constructors  []string // names; nil = no @constructor
 	CtorSpelling  string   // rendered argument text of the @constructor line
+	CtorSplit     int      // > 0: the first CtorSplit names on one @constructor line, the others on a second one
 	TestOnly      bool
 	PackageOnly   [][]string // one entry per @packageonly line; nil = none
 	Implements    []string   // raw argument text per @implements line
@@ -172,6 +173,7 @@ type TypeRef struct {
 	Paren    bool      // (T) where allowed
 	ParenAll bool      // (*T): parentheses around the whole pointer type (receivers)
 	Wrap     string    // composite type built from the mention: "[]", "[2]", "map[string]", "chan ", "..." (variadic parameter), "[]" + pointer = []*T
+	WrapKey  *TypeDecl // Wrap == "map[string]": use this named (unannotated) key type instead of string
 }
 
 type Var struct {
